@@ -99,4 +99,10 @@ PROPERTIES = {
         explanation="plugin manager fold, hook forwarding, identity of the base hooks, NoReimports; plugged packages by an end-to-end bounded stand-in",
         assumptions=["equivalence of whole plugged and unplugged packages on scripted responses is sampled, not proved"],
     ),
+    "C03": dict(
+        modules=["contracts.c03_arguments", "contracts.c11_clients", "contracts.c06_input_types", "contracts.c07_scalars"],
+        bounded=[_bounded.lazy("contracts.e2e_variables", "bounded_variables")],
+        explanation="variable annotation translator, local-name freshness, run-time value conversion; whole calls by an end-to-end bounded stand-in with graphql-core's variable coercion",
+        assumptions=["that dumped JSON coerces to the caller's values is pydantic's and graphql-core's (assumed, sampled by the stand-in)"],
+    ),
 }
